@@ -405,6 +405,9 @@ func (s *chunkSrc) endErr() error {
 	if s.end == "fail" {
 		return errSrc
 	}
+	if s.end == "uex" { // the source was cut: what a frame reader reports for a payload that ends early
+		return io.ErrUnexpectedEOF
+	}
 	return io.EOF
 }
 func (s *chunkSrc) Read(p []byte) (int, error) {
